@@ -599,6 +599,13 @@ class GroupList(list):
             return g
         raise Undecided(f"groupby[{k!r}]")
 
+    def get_group(self, name, *a, **k):
+        """DataFrameGroupBy.get_group: that group's rows; a key that is no group raises KeyError"""
+        for key, sub in self:
+            if key == name or (isinstance(key, tuple) and len(key) == 1 and key[0] == name):
+                return sub
+        raise Raised("KeyError", repr(name))
+
     def apply(self, f, *args, **kw):
         """DataFrameGroupBy.apply: the function's tables, concatenated in group order"""
         it = self._it
